@@ -8,7 +8,8 @@ handle through the hooks (`Db::verif_dump`, `Db::verif_table_state`, `Db::verif_
 to the compiled driver.  The driver rebuilds MODEL states from the dump
 
     tableOf : TableDump  -> Pdb.ValueTable.VT      (raw slot bytes, `filled`, `last_removed`)
-    colOf   : ColumnDump -> Pdb.Index.Col          (index tables, address -> (tail, value), tiers)
+    colOf   : ColumnDump -> Pdb.Index.Col          (index tables, address -> (tail, value), tiers
+                                                    with the continuation slots of the chains)
     treeOf  : TreeDump   -> Pdb.C04.Tree           (nested nodes from the address-keyed node list)
 
 and evaluates on them the Lean definitions used by the theorems: `Pdb.ValueTable.SlotInv`
@@ -181,8 +182,14 @@ def headsOf (d : ColumnDump) : List Head := d.tables.flatMap headsOfTable
 def valuesOf (hs : List Head) : Index.Trie Index.Slot :=
   hs.foldl (fun t h => t.set Index.DEPTH h.addr (some h.slot)) Index.Trie.empty
 
+/-- the chain records of the index model (`Index.Tier.chains`): head slot and continuation slots
+of every live chain with more than one part -/
+def chainRecs (d : TableDump) : List (Nat × List Nat) :=
+  (chainsOf d).filterMap fun c => if c.tail.isEmpty then none else some (c.headD 0, c.tail)
+
 def tiersOf (ts : List TableDump) : Index.Trie Index.Tier :=
-  ts.foldl (fun t td => t.set Index.DEPTH td.tier (some ⟨td.filled, freeOf td⟩)) Index.Trie.empty
+  ts.foldl (fun t td => t.set Index.DEPTH td.tier (some ⟨td.filled, freeOf td, chainRecs td⟩))
+    Index.Trie.empty
 
 /-- The index-layer model state a dump stands for (values abstracted to ""). -/
 def colOf (d : ColumnDump) : Index.Col :=
@@ -275,16 +282,25 @@ def firstBadTable : List TableDump → Option String
     | some r => some s!"table:{t.tier}:{r}"
     | none => firstBadTable ts
 
-/-- the conjuncts of the abstract `Pdb.Index.SlotInv` that are not consequences of the
-construction, evaluated on `colOf d` (single-slot values only) -/
+/-- the conjuncts of the abstract `Pdb.Index.SlotInv` (`TierInv`, chains included) that are not
+consequences of the construction, evaluated on `colOf d`: per table the fill mark and the free
+list are the dumped ones; "free list ++ continuation slots" (`Col.dead`) has no duplicate, lies
+below the fill mark and holds no value head; every slot below the fill mark is dead or a live
+head; one chain record per head, recorded only for live heads -/
 def absSlotsOk (d : ColumnDump) (s : Index.Col) : Bool :=
   d.tables.all (fun td =>
     let T := s.tier td.tier
+    let dead := T.free ++ Index.ownedOf T.chains
     decide (T.filled = td.filled) && decide (T.free = freeOf td) &&
     decide (td.filled ≤ 2 ^ 56) &&
-    (List.range td.filled).all (fun off => decide (off < 1) || decide (off ∈ T.free) ||
-      (s.tailAt (Address.new off td.tier)).isSome)) &&
-  (headsOf d).all (fun h => decide (h.off ∉ (s.tier h.tier).free))
+    decide dead.Nodup &&
+    dead.all (fun off => decide (1 ≤ off) && decide (off < td.filled) &&
+      (s.tailAt (Address.new off td.tier)).isNone) &&
+    (List.range td.filled).all (fun off => decide (off < 1) || decide (off ∈ dead) ||
+      (s.tailAt (Address.new off td.tier)).isSome) &&
+    decide (T.chains.map (·.1)).Nodup &&
+    (T.chains.map (·.1)).all (fun h => decide (1 ≤ h) && decide (h < td.filled) &&
+      (s.tailAt (Address.new h td.tier)).isSome))
 
 /-- cascade step: `c` must hold, otherwise the verdict is `r` -/
 def guardR (c : Bool) (r : String) (k : Unit → Option String) : Option String :=
@@ -306,7 +322,7 @@ def keyedReason (d : ColumnDump) (s : Index.Col) (ks : List (Head × Index.Key))
   guardR (ks.all fun x => decide (x.2.pre < 2 ^ 64)) "prefix" fun _ =>
   guardR (progOk s ks) "reindex-progress" fun _ =>
   guardR (expectedMatch d.expected ks) "keys" fun _ =>
-  guardR (d.tables.any (·.multipart) || absSlotsOk d s) "abs-slots" fun _ => none
+  guardR (absSlotsOk d s) "abs-slots" fun _ => none
 
 def reachReason (d : ColumnDump) (s : Index.Col) (hs : List Head) : Option String :=
   match keyedOf s (candsOf d.index) d.expected hs with
